@@ -47,4 +47,37 @@ impl TickArray {
         r is Ok ==> old(ctx.accounts).tick_array.skey() == pda_of(seq![Seed::Lit(0x7469636b5f6172726179int), Seed::Key(old(ctx.accounts).whirlpool.k), Seed::Dec(start_tick_index as int)]), //# C15 C10
 //@ rewrite /let mut tick_array = ctx\.accounts\.tick_array\.load_init\(\)\?;/ => /let tick_array = ctx.accounts.tick_array.load_init()?;/
 //@ end
+
+// ------------------------------------------------------------------ dynamic tick array: initialisation at byte level
+//@ assume dynamic-array init shims: `self.0[o..o + 4].copy_from_slice(&x.to_le_bytes())` / `self.0[o..o + 32].copy_from_slice(&k.to_bytes())` are the helpers write_i32_le / write_key (copy of 4 / 32 bytes at an offset, every other byte untouched)
+use crate::tick_arrays::{DynamicTickArrayLoader, DYN_MAX_LEN};
+#[allow(unused_imports)]
+use crate::tick_arrays::TickArrayType;
+use crate::lebytes::*;
+#[verifier::external_body]
+pub fn write_i32_le(a: &mut [u8; DYN_MAX_LEN], off: usize, v: i32)
+    requires off + 4 <= DYN_MAX_LEN,
+    ensures i32_from_le_bytes_spec([final(a)[off as int], final(a)[off + 1], final(a)[off + 2], final(a)[off + 3]]) == v, forall|q: int| 0 <= q < DYN_MAX_LEN && (q < off || q >= off + 4) ==> final(a)[q] == old(a)[q],
+{ unimplemented!() }
+#[verifier::external_body]
+pub fn write_key(a: &mut [u8; DYN_MAX_LEN], off: usize, k: Pubkey)
+    requires off + 32 <= DYN_MAX_LEN,
+    ensures forall|q: int| 0 <= q < 32 ==> final(a)[off + q] == k.0[q], forall|q: int| 0 <= q < DYN_MAX_LEN && (q < off || q >= off + 32) ==> final(a)[q] == old(a)[q],
+{ unimplemented!() }
+pub uninterp spec fn i32_from_le_bytes_spec(b: [u8; 4]) -> i32;
+impl DynamicTickArrayLoader {
+/// C10 / C13: a dynamic array, like a fixed one, starts only at a valid start index for the pool's spacing (the ARGUMENT is what is checked and stored) and records the pool's key
+//@ fn state/dynamic_tick_array.rs initialize in=/^impl DynamicTickArrayLoader \{/ -> r canary
+    requires whirlpool.data.tick_spacing > 0,
+    ensures
+        r is Ok <==> valid_start(start_tick_index as int, whirlpool.data.tick_spacing as int), //# C10 C13
+        r is Ok ==> i32_from_le_bytes_spec([final(self).0[0], final(self).0[1], final(self).0[2], final(self).0[3]]) == start_tick_index
+            && (forall|q: int| 0 <= q < 32 ==> final(self).0[4 + q] == whirlpool.k.0[q]), //# C10 C15
+        r is Err ==> final(self).0 == old(self).0,
+//@ rewrite /self\.0\[Self::START_TICK_INDEX_OFFSET\.\.Self::START_TICK_INDEX_OFFSET \+ 4\]\s*\.copy_from_slice\(&start_tick_index\.to_le_bytes\(\)\);/ => /write_i32_le(&mut self.0, Self::START_TICK_INDEX_OFFSET, start_tick_index);/
+//@ rewrite /self\.0\[Self::WHIRLPOOL_OFFSET\.\.Self::WHIRLPOOL_OFFSET \+ 32\]\s*\.copy_from_slice\(&whirlpool\.key\(\)\.to_bytes\(\)\);/ => /write_key(&mut self.0, Self::WHIRLPOOL_OFFSET, whirlpool.key());/
+//@ inject at /^\s*\{/
+        proof { assert(Self::START_TICK_INDEX_OFFSET == 0 && Self::WHIRLPOOL_OFFSET == 4); }
+//@ end
+}
 }
